@@ -247,6 +247,27 @@ def c05_long(task):
     return {"cov": cov, "viol": viol}
 
 
+def c05_starts(task):
+    """Long events (70 windows) starting at every window index 0..130, through every input kind, at rates
+    where start*rate is not exactly representable (48 kHz / 20 ms, 100 Hz / 10 ms, 44.1 kHz / 10 ms)."""
+    rate, W, aw, lo, hi = task
+    cov = {"evaluations": 0, "distinct_nontrivial": 0, "large_rows_not_exhaustive": 0, "samples": []}
+    viol = []
+    for k in range(lo, hi):
+        flags = [False] * k + [True] * 70 + [False] * 2
+        for as_region in (0, 1, 2):
+            cov["evaluations"] += 1
+            cov["large_rows_not_exhaustive"] += 1
+            cov["distinct_nontrivial"] += 1
+            msg = c05_case(2, 1, rate, W, Decimal(aw), flags, 0, False, 1, 100, 0, 0, as_region=as_region)
+            if msg and len(viol) < 3:
+                viol.append(("split-start rate=%d W=%d start_window=%d input=%d" % (rate, W, k, as_region), msg,
+                             {"kind": "c05", "sw": 2, "ch": 1, "rate": rate, "W": W, "aw": aw, "flags": tm.show(flags), "tail": 0,
+                              "tail_flag": False, "tuple": [1, 100, 0, 0], "as_region": as_region}))
+    cov["samples"].append({"long_event_start_windows": "%d..%d" % (lo, hi - 1), "rate": rate, "samples_per_window": W})
+    return {"cov": cov, "viol": viol}
+
+
 def tuples_g3():
     out = []
     for mx in (1, 2, 3):
@@ -752,6 +773,10 @@ def run(prop, tier):
         itup = [(1, 1, 0, 0), (1, 2, 0, 0), (2, 3, 1, 0), (1, 3, 1, 4), (2, 2, 0, 2), (1, 3, 2, 6)]
         itasks = [("i", (ipats, [t])) for t in itup]
         itasks += [("l", t) for t in ((2, 1, 4, 16000), (1, 2, 8, 8000), (4, 3, 2, 16), (2, 2, 16, 44100))]
+        for rate, W, aw in ((48000, 960, "0.02"), (100, 1, "0.01"), (44100, 441, "0.01")):
+            step = 131 if rate == 100 else 22
+            for lo in range(0, 131, step):
+                itasks.append(("s", (rate, W, aw, lo, min(lo + step, 131))))
         for part in common.pmap(_c05_dispatch, [("w", t) for t in tasks] + itasks):
             rep.merge(part)
     elif prop == "C06":
@@ -800,7 +825,8 @@ def run(prop, tier):
                             "tuples; every variant compared with the raw-bytes / long-name baseline")
         recs = [(2, 1, 10, 1, "AaAAaaA", 0), (1, 2, 20, 2, "aAAaA", 1), (4, 3, 30, 3, "AAaAa", 2), (2, 2, 16, 2, "AaaAAAAa", 0),
                 (1, 1, 8, 4, "AAaaAa", 3), (4, 1, 10, 1, "aAaAAAAA", 0),
-                (2, 1, 16000, 4, "AaAAaAAA", 2), (2, 2, 8000, 3, "AAAaAAaA", 0)]  # sub-millisecond sample periods
+                (2, 1, 16000, 4, "AaAAaAAA", 2), (2, 2, 8000, 3, "AAAaAAaA", 0),  # sub-millisecond sample periods
+                (2, 2, 96000, 19200, "AaAA", 777), (1, 3, 65536, 32769, "AAa", 5)]  # windows larger than 16384 / 32768 samples
         if not quick:
             recs += [(2, 3, 10, 1, "AAAAAAAA", 0), (2, 2, 20, 2, "", 1), (1, 3, 9, 3, "aaaa", 0), (4, 2, 70, 7, "AaAaA", 5)]
         tasks = [r + (tier,) for r in recs]
@@ -819,6 +845,8 @@ def run(prop, tier):
 def _c05_dispatch(t):
     if t[0] == "l":
         return c05_long(t[1])
+    if t[0] == "s":
+        return c05_starts(t[1])
     return c05_work(t[1]) if t[0] == "w" else c05_interleaved(t[1])
 
 
